@@ -9,9 +9,11 @@ import (
 
 	"pgregory.net/rapid"
 
+	"seehuhn.de/go/postscript/funit"
 	"seehuhn.de/go/postscript/type1/names"
 	"seehuhn.de/go/sfnt"
 	"seehuhn.de/go/sfnt/cff"
+	"seehuhn.de/go/sfnt/cmap"
 	"seehuhn.de/go/sfnt/glyf"
 	"seehuhn.de/go/sfnt/glyph"
 	"seehuhn.de/go/sfnt/opentype/gtab"
@@ -507,5 +509,83 @@ func TestC20PostScriptName(t *testing.T) {
 			func() string {
 				return fmt.Sprintf("%q width=%d weight=%d -> %q", f.FamilyName, f.Width, f.Weight, name)
 			})
+	})
+}
+
+// TestC20Huge: name inference on fonts at the upper end of the glyph-count
+// range (32769..65535 glyphs, almost all without outline and without name),
+// with character mappings and substitution rules whose glyphs lie anywhere in
+// that range - a single substitution in format 1 stores the distance between
+// a glyph and its substitute modulo 65536.
+func TestC20Huge(t *testing.T) {
+	rapid.Check(t, func(t *rapid.T) {
+		n := rapid.SampledFrom([]int{32769, 40000, 65534, 65535}).Draw(t, "numGlyphs")
+		gid := rapid.Custom(func(t *rapid.T) glyph.ID {
+			return glyph.ID(rapid.OneOf(rapid.IntRange(1, n-1), rapid.IntRange(1, 40), rapid.IntRange(n-40, n-1)).Draw(t, "gid"))
+		})
+		o := &glyf.Outlines{Glyphs: make(glyf.Glyphs, n), Widths: make([]funit.Int16, n)}
+		named := map[glyph.ID]string{}
+		if rapid.Bool().Draw(t, "someNames") {
+			o.Names = make([]string, n)
+			o.Names[0] = ".notdef"
+			for i := rapid.IntRange(0, 12).Draw(t, "nNamed"); i > 0; i-- {
+				g := gid.Draw(t, "namedGid")
+				nm := rapid.SampledFrom([]string{"A", "B", "f", "i", "l", "f_i", "A.1", "orn001", "space"}).Draw(t, "name")
+				o.Names[g] = nm
+				named[g] = nm
+			}
+		}
+		f := &sfnt.Font{FamilyName: "Huge", UnitsPerEm: 1000, Outlines: o}
+		cm := cmap.Format4{}
+		for i := rapid.IntRange(0, 12).Draw(t, "nMapped"); i > 0; i-- {
+			cm[uint16(rapid.SampledFrom([]rune{'A', 'B', 'C', 'f', 'i', 'l', 'x', 0xE9, 0x3A9}).Draw(t, "rune"))] = gid.Draw(t, "mappedGid")
+		}
+		f.InstallCMap(cm)
+		f.Gsub = &gtab.Info{}
+		for k := rapid.IntRange(1, 4).Draw(t, "nLookups"); k > 0; k-- {
+			switch rapid.IntRange(0, 3).Draw(t, "lookupKind") {
+			case 0:
+				from, to := gid.Draw(t, "from"), gid.Draw(t, "to")
+				f.Gsub.LookupList = append(f.Gsub.LookupList, &gtab.LookupTable{Meta: &gtab.LookupMetaInfo{LookupType: 1},
+					Subtables: []gtab.Subtable{&gtab.Gsub1_1{Cov: map[glyph.ID]bool{from: true}, Delta: to - from}}})
+			case 1:
+				from, to := gid.Draw(t, "from"), gid.Draw(t, "to")
+				f.Gsub.LookupList = append(f.Gsub.LookupList, &gtab.LookupTable{Meta: &gtab.LookupMetaInfo{LookupType: 1},
+					Subtables: []gtab.Subtable{&gtab.Gsub1_2{Cov: map[glyph.ID]int{from: 0}, SubstituteGlyphIDs: []glyph.ID{to}}}})
+			case 2:
+				from := gid.Draw(t, "from")
+				alts := rapid.SliceOfN(gid, 1, 3).Draw(t, "alts")
+				f.Gsub.LookupList = append(f.Gsub.LookupList, &gtab.LookupTable{Meta: &gtab.LookupMetaInfo{LookupType: 3},
+					Subtables: []gtab.Subtable{&gtab.Gsub3_1{Cov: map[glyph.ID]int{from: 0}, Alternates: [][]glyph.ID{alts}}}})
+			default:
+				from := gid.Draw(t, "from")
+				in := rapid.SliceOfN(gid, 1, 3).Draw(t, "ligIn")
+				f.Gsub.LookupList = append(f.Gsub.LookupList, &gtab.LookupTable{Meta: &gtab.LookupMetaInfo{LookupType: 4},
+					Subtables: []gtab.Subtable{&gtab.Gsub4_1{Cov: map[glyph.ID]int{from: 0}, Repl: [][]gtab.Ligature{{{In: in, Out: gid.Draw(t, "ligOut")}}}}}})
+			}
+		}
+		var got []string
+		if pn := guard.Try(func() { got = f.MakeGlyphNames() }); pn != nil {
+			t.Fatalf("MakeGlyphNames panicked on a font of %d glyphs: %s\nrules %v\n%s", n, pn, rulesOf(f), pn.Stack)
+		}
+		if err := checkNames(f, got); err != nil {
+			var some []string
+			for g := range named {
+				some = append(some, fmt.Sprintf("%d=%q", g, got[g]))
+			}
+			t.Fatalf("%v\n  font of %d glyphs, original names %v, cmap %v, rules %v", err, n, named, cm, rulesOf(f))
+		}
+		if again := f.MakeGlyphNames(); strings.Join(again, "|") != strings.Join(got, "|") {
+			t.Fatalf("MakeGlyphNames is not stable on a font of %d glyphs", n)
+		}
+		inferred := 0
+		for i, nm := range got {
+			if !ornPat.MatchString(nm) && named[glyph.ID(i)] == "" && i > 0 {
+				inferred++
+			}
+		}
+		stats.CaseIn("huge", stats.Hash(n, fmt.Sprint(named), fmt.Sprint(cm), fmt.Sprint(rulesOf(f))), inferred > 0, func() string {
+			return fmt.Sprintf("%d glyphs, %d names inferred, rules %v", n, inferred, rulesOf(f))
+		}, fmt.Sprintf("glyphs-%d", n))
 	})
 }
